@@ -82,6 +82,12 @@ func (c customCtx) Value(interface{}) interface{} {
 	return nil
 }
 
+// errCause is the cause the harness gives to the *Cause context kinds. Dial
+// has to report ctx.Err(), never this value.
+var errCause = errors.New("harness: application-level cancellation cause")
+
+func (s *scenario) hasDeadline() bool { return strings.HasPrefix(s.Ctx, "deadline") }
+
 var errRefused = errors.New("scripted NetDial: connection refused")
 
 // ---------------------------------------------------------------------------
@@ -158,6 +164,26 @@ func bubble(sc *scenario, out *outcome) {
 		ctx = customCtx{ctx}
 	case "deadline":
 		ctx, cancel = context.WithDeadline(context.Background(), start.Add(ms(sc.Deadline)))
+	case "cancelcause":
+		// ended by the application with its own cause: ctx.Err() is still
+		// context.Canceled, context.Cause(ctx) is errCause
+		c, cc := context.WithCancelCause(context.Background())
+		ctx, cancel = c, func() { cc(errCause) }
+	case "causechild":
+		parent, cc := context.WithCancelCause(context.Background())
+		c, childCancel := context.WithCancel(parent)
+		defer childCancel()
+		ctx, cancel = c, func() { cc(errCause) }
+	case "deadlinecause":
+		parent, cc := context.WithCancelCause(context.Background())
+		c, dc := context.WithDeadlineCause(parent, start.Add(ms(sc.Deadline)), errCause)
+		defer dc()
+		ctx, cancel = c, func() { cc(errCause) }
+	case "deadlinecause-child":
+		parent, pc := context.WithTimeoutCause(context.Background(), ms(sc.Deadline), errCause)
+		defer pc()
+		parent2, cc := context.WithCancelCause(parent)
+		ctx, cancel = context.WithValue(parent2, ctxKey{}, "c20"), func() { cc(errCause) }
 	default:
 		panic("c20: unknown ctx kind " + sc.Ctx)
 	}
@@ -411,7 +437,7 @@ func judge(sc *scenario, o *outcome) (v verdict) {
 			ctxEnd, ctxEnds, ctxEndTimed = t, true, timed
 		}
 	}
-	if sc.Ctx == "deadline" {
+	if sc.hasDeadline() {
 		note(ms(sc.Deadline), true)
 		limit(ms(sc.Deadline), "ctx-deadline")
 	}
@@ -539,7 +565,7 @@ func judge(sc *scenario, o *outcome) (v verdict) {
 		// poison while the handshake reads on; a response that is wrong in
 		// itself is then reported as such ("the error is that error").
 		ownFailure := sc.Peer.SlowDL && o.Err != nil && !isNetTimeout(o.Err) &&
-			(sc.Peer.Resp != "valid" || sc.Peer.Deliver >= 0 || sc.Peer.EOF)
+			(sc.Peer.Resp != "valid" || sc.Peer.Deliver >= 0 || sc.Peer.EOF) && !errors.Is(o.Err, errCause)
 		switch {
 		case o.CtxErrAtReturn == nil:
 			v.Infra = "harness inconsistency: the context should have ended before Dial returned but ctx.Err() was nil"
@@ -547,6 +573,8 @@ func judge(sc *scenario, o *outcome) (v verdict) {
 			v.Open = "handshake-failed-by-itself-while-poison-in-flight"
 		case o.Err == nil:
 			v.Violation = fmt.Sprintf("the context ended (%v) before the handshake I/O finished, yet Dial returned a nil error", o.CtxErrAtReturn)
+		case errors.Is(o.Err, errCause):
+			v.Violation = fmt.Sprintf("the context ended before the handshake I/O finished; its error is %q, yet Dial returned the cancellation cause %q", o.CtxErrAtReturn, o.Err)
 		case !errors.Is(o.Err, o.CtxErrAtReturn):
 			v.Violation = fmt.Sprintf("the context ended (%v) before the handshake I/O finished, yet Dial returned %q", o.CtxErrAtReturn, o.Err)
 		}
